@@ -49,7 +49,11 @@ def _own_nodes(fdef):
         st.extend(ast.iter_child_nodes(n))
 
 
-def bound_names(fdef):
+def bound_names(fdef, _cache={}):
+    return set(_bound_names(fdef))
+
+
+def _bound_names(fdef):
     out = set()
     a = fdef.args
     for x in list(a.posonlyargs) + list(a.args) + list(a.kwonlyargs) + [y for y in (a.vararg, a.kwarg) if y]:
@@ -128,9 +132,37 @@ class _Mask(ast.NodeTransformer):
         return node
 
 
+class _Mark(ast.NodeTransformer):
+    """replaces every bound name by a unique marker so that one unparse per unit serves all variables"""
+    def __init__(self, bound):
+        self.bound = bound
+
+    def visit_Name(self, node):
+        if node.id in self.bound:
+            return ast.copy_location(ast.Name(id=f'\x01{node.id}\x02', ctx=node.ctx), node)
+        return node
+
+    def visit_arg(self, node):
+        if node.arg in self.bound:
+            node.arg = f'\x01{node.arg}\x02'
+        return node
+
+    def visit_Constant(self, node):
+        if isinstance(node.value, str) and len(node.value) > 12:
+            return ast.copy_location(ast.Constant(value='~'), node)
+        return node
+
+
+_MARK = None
+
+
 def signatures(fdef):
     """name -> Counter(context string)"""
     import copy
+    import re
+    global _MARK
+    if _MARK is None:
+        _MARK = re.compile('\x01([^\x02]*)\x02')
     bound = bound_names(fdef)
     sig = {b: Counter() for b in bound}
     a = fdef.args
@@ -140,29 +172,25 @@ def signatures(fdef):
     for x in a.kwonlyargs:
         if x.arg in sig:
             sig[x.arg]['<kwonly>'] += 1
+    marker = _Mark(bound)
     for u in _units(fdef):
         kind, exprs = u[0], u[1]
-        present = set()
-        for e in exprs:
-            for n in ast.walk(e):
-                if isinstance(n, ast.Name) and n.id in bound:
-                    present.add(n.id)
-                elif isinstance(n, ast.arg) and n.arg in bound:
-                    present.add(n.arg)
         hname = u[2] if kind == 'except' and len(u) > 2 else None
+        parts = []
+        for e in exprs:
+            try:
+                parts.append(ast.unparse(marker.visit(copy.deepcopy(e))))
+            except Exception:
+                parts.append('?')
+        text = f'{kind}: ' + ' ; '.join(parts)
+        present = set(_MARK.findall(text))
         if hname and hname in bound:
             present.add(hname)
         for v in present:
-            parts = []
-            for e in exprs:
-                try:
-                    parts.append(ast.unparse(_Mask(bound, v).visit(copy.deepcopy(e))))
-                except Exception:
-                    parts.append('?')
+            t = _MARK.sub(lambda m: '@' if m.group(1) == v else '_', text)
             if kind == 'except':
-                parts.append('as ' + ('@' if hname == v else '_' if hname else '-'))
-            ctxs = f'{kind}: ' + ' ; '.join(parts)
-            sig[v][ctxs.replace('__AT__', '@').replace('__', '_')] += 1
+                t += ' ; as ' + ('@' if hname == v else '_' if hname else '-')
+            sig[v][t] += 1
     return sig
 
 
@@ -248,6 +276,10 @@ def apply(tree, relpath):
     for q, f in functions(tree):
         rs = ref.get(q)
         if not rs:
+            continue
+        # nothing to do when every bound name of the function is spelled as in the reference (the common case: cheap test first)
+        bn = bound_names(f)
+        if not (bn - set(rs)) or not (set(rs) - bn):
             continue
         try:
             cs = signatures(f)
